@@ -11,6 +11,11 @@ from nix_manipulator.expressions import NixSourceCode
 from nix_manipulator.parser import parse
 
 
+def _emit(text: str) -> None:
+    """Write an edit result, terminating the last line only when it is not already."""
+    sys.stdout.write(text if text.endswith("\n") else text + "\n")
+
+
 def main(args=None) -> int:
     """Return CLI exit codes so automation can distinguish success from failure."""
     parser = build_parser()
@@ -37,7 +42,7 @@ def main(args=None) -> int:
             return 0
         case "set":
             source = parse(args.file.read())
-            print(
+            _emit(
                 set_value(
                     source=source,
                     npath=args.npath,
@@ -47,7 +52,7 @@ def main(args=None) -> int:
             return 0
         case "rm":
             source = parse(args.file.read())
-            print(
+            _emit(
                 remove_value(
                     source=source,
                     npath=args.npath,
